@@ -346,6 +346,13 @@ class C02(Check):
                             acc.sample({'threadmap': [repr(ENTRIES[i]) for i in tm], 'pad': pad, 'records': list(kinds)})
         elif desc[0] == 'long':
             # many records (a reader that batches, caps or recycles buffers is invisible to 3-record dumps)
+            pool = [rec(ts, (a, 0, 0, 0), 9, 0x040c0004 | q) for ts, a, q in ((5, 9, 2), (5, 1, 1), (5, 5, 0), (4, 7, 1), (6, 0, 2))]
+            for perm in itertools.permutations(range(len(pool)), 4):
+                recs = [pool[i] for i in perm]
+                got, err, _ = parse_kd(v2([], 0, recs), {}, {})
+                acc.case(nontrivial=True, transitions=4, outcome=h64(('order', perm)))
+                if got != [ref_decode(r) for r in recs] or err:
+                    acc.violation('v2-events-not-in-file-order', {'kind': 'long', 'perm': list(perm)}, {'err': err})
             for n in (63, 64, 65, 511, 512, 513, 1500, 4097):
                 recs = [rec(1000 + i, (i, i * 3, 7, 9), 1 + i % 3, 0x040c0004 | (i % 4)) for i in range(n)]
                 for pad in (0, 64):
